@@ -131,7 +131,7 @@ int main(int argc, char** argv) {
 				if (vf::deadline_passed()) { st.capped("deadline inside " + e.label); break; }
 				vf::set_inflight(case_of(e, cuts[k]).dump());
 				vf::set_progress((long) k);
-				alarm((unsigned) g_watchdog);
+				vf::watch_start(g_watchdog);
 				{
 					vf::set_step("Load");
 					NifFile n;
@@ -150,7 +150,7 @@ int main(int argc, char** argv) {
 					else outcomes.insert((uint64_t) rc);
 					st.add(valid ? "prefixes_loaded_partially" : "prefixes_rejected");
 				}
-				alarm(0);
+				vf::watch_stop();
 				done++;
 				st.add("evaluations");
 			}
